@@ -2,12 +2,15 @@
 //! (compio-buf, compio-io). One binary, one sub-command per property.
 mod c10;
 mod c10v;
+mod c11;
+mod env;
 
 fn main() {
     let args = vcore::parse_args();
     vcore::quiet_panics();
     match args.property.as_str() {
         "C10" => c10::run(args),
+        "C11" => c11::run(args),
         p => vcore::machinery_error(&format!("e2pure does not serve property {p}")),
     }
 }
